@@ -10,7 +10,10 @@ import (
 	"os"
 	"reflect"
 	"strconv"
+	"runtime"
 	"strings"
+	"sync"
+	"sync/atomic"
 	"time"
 )
 
@@ -219,6 +222,52 @@ func Param(name string, def int) int {
 // instead of an inconclusive run. Natively a watchdog turns a hang into "timeout".
 func HangIsViolation() {}
 
+// Par runs the closures as concurrent threads. Natively: real goroutines, joined; a panic in
+// one of them is re-raised in the caller. Symbolically: the engine's bounded thread model
+// (engine/par.go). Nondet* must not be called inside the closures.
+func Par(fns ...func()) {
+	var wg sync.WaitGroup
+	panics := make([]interface{}, len(fns))
+	var arrived int32
+	for i, f := range fns {
+		wg.Add(1)
+		go func(i int, f func()) {
+			defer wg.Done()
+			defer func() { panics[i] = recover() }()
+			// start barrier: the threads begin together so that their operations overlap
+			atomic.AddInt32(&arrived, 1)
+			for spin := 0; atomic.LoadInt32(&arrived) < int32(len(fns)) && spin < 1000000; spin++ {
+				runtime.Gosched()
+			}
+			f()
+		}(i, f)
+	}
+	wg.Wait()
+	for _, p := range panics {
+		if p != nil {
+			panic(p)
+		}
+	}
+}
+
+// Stress is the number of repetitions a concurrent harness runs natively so that a schedule
+// found by the engine has a chance to occur; symbolically it is 1.
+func Stress(n int) int { return n }
+
+// raceLogSize: under -race with GORACE=log_path=$ZZVERIF_RACELOG the runtime appends its
+// reports to <path>.<pid>; growth during a vector means the race detector fired.
+func raceLogSize() int64 {
+	p := os.Getenv("ZZVERIF_RACELOG")
+	if p == "" {
+		return 0
+	}
+	st, err := os.Stat(fmt.Sprintf("%s.%d", p, os.Getpid()))
+	if err != nil {
+		return 0
+	}
+	return st.Size()
+}
+
 func MapOrder(mode int) {}
 func PoolMode(mode int) {}
 
@@ -346,6 +395,7 @@ func fingerprint(root interface{}) string {
 // A watchdog (10 s) reports a harness that does not return as "timeout".
 func NativeRun(name string, fn func()) (result string) {
 	load()
+	raceBefore := raceLogSize()
 	done := make(chan string, 1)
 	go func() {
 		res := "completed"
@@ -366,6 +416,9 @@ func NativeRun(name string, fn func()) (result string) {
 	}()
 	select {
 	case result = <-done:
+		if result == "completed" && raceLogSize() > raceBefore {
+			result = "assert-fail:data race reported by the Go race detector"
+		}
 		if result == "completed" {
 			for i, r := range frozenRoots {
 				if fingerprint(r) != frozenPrints[i] {
